@@ -260,6 +260,11 @@ class Ranges:
             return join(rest, rv)
         if name in ('poisson',) or name.endswith('.poisson') or name == 'm:poisson':
             return Rng(0, INF, True)
+        if name.split(':')[-1].split('.')[-1] in ('lognormal', 'gamma', 'exponential', 'chisquare', 'rayleigh', 'weibull', 'pareto',
+                                                  'standard_exponential', 'standard_gamma', 'beta', 'random', 'uniform01'):
+            return Rng(0, INF)          # distributions supported on the non-negative reals
+        if name.split(':')[-1].split('.')[-1] in ('binomial', 'geometric', 'negative_binomial', 'hypergeometric'):
+            return Rng(0, INF, True)
         if name == 'functools.reduce' and len(args) >= 2:
             fa = args[0].single_atom() if isinstance(args[0], Poly) else None
             which = None
